@@ -1,4 +1,5 @@
 import SqlgrepModel.Lemmas.CivilAgree
+import SqlgrepModel.Lemmas.CivilNext
 import SqlgrepModel.Props.C03Func
 /-
 C03 — TIMESTAMP and INTERVAL arithmetic, stated ABSOLUTELY (the instant of the result), at the level of the operator
@@ -67,5 +68,27 @@ theorem interval_arith (x y : Int) :
 /-- non-vacuity: a timestamp at 10:00:00 minus one hour is 09:00:00 of the same day, plus one hour 11:00:00 -/
 example : arith .sub (.timestamp 736329 36000 0) (.interval 3600000000000) = .ok (.timestamp 736329 32400 0) ∧
     arith .add (.timestamp 736329 36000 0) (.interval 3600000000000) = .ok (.timestamp 736329 39600 0) := ⟨rfl, rfl⟩
+
+/-! ### the calendar behind TIMESTAMP values counts days
+
+A TIMESTAMP value holds the day number `Civil.daysFromCE y m d` of its date. The closed formulas behind it
+(`daysBeforeYear`, the cumulative table `daysBeforeMonth`) are tied here to the calendar a reader knows: 0001-01-01 is day 1, and
+the day after any date — next day of the month, first of the next month after the last day (`monthLen`, February by the leap rule
+`isLeap_iff`), January 1st after December 31st — has the next number. These two facts determine `daysFromCE` on every date. -/
+
+/-- **the day number counts calendar days** -/
+theorem calendar_counts_days :
+    Civil.daysFromCE 1 1 1 = 1 ∧
+    ∀ (y : Int) (m d : Nat), 1 ≤ m ∧ m ≤ 12 → 1 ≤ d ∧ d ≤ Civil.monthLen y m →
+      Civil.daysFromCE (Civil.nextDay y m d).1 (Civil.nextDay y m d).2.1 (Civil.nextDay y m d).2.2 = Civil.daysFromCE y m d + 1 :=
+  ⟨Civil.daysFromCE_origin, Civil.daysFromCE_nextDay⟩
+
+/-- the leap rule of the model's calendar is the Gregorian one -/
+theorem leap_rule (y : Int) : Civil.isLeap y = true ↔ (y % 4 = 0 ∧ y % 100 ≠ 0) ∨ y % 400 = 0 := by
+  rw [← CivilE.isLeap_eq]; exact CivilE.isLeap_iff y
+
+/-- non-vacuity: 2024-02-28 → 02-29 → 03-01, 1999-12-31 → 2000-01-01 -/
+example : Civil.daysFromCE 2024 2 29 = Civil.daysFromCE 2024 2 28 + 1 ∧ Civil.daysFromCE 2024 3 1 = Civil.daysFromCE 2024 2 29 + 1 ∧
+    Civil.daysFromCE 2000 1 1 = Civil.daysFromCE 1999 12 31 + 1 := by decide
 
 end Sqlgrep.Props.C03Time
